@@ -859,6 +859,11 @@ func init() {
 			for len(frames) < 38 {
 				frames = append(frames, plainOf(r, genMsgs(r, 3, 30, false), true))
 			}
+			// every residue of the data size modulo the cipher block, in particular frames that end on a block boundary
+			// (data size = 10 mod 32: no padding at all) and frames whose checksum straddles one
+			for k := 0; k < 32; k++ {
+				frames = append(frames, plainOf(r, sizedMsgs(r, 32+k, false), true))
+			}
 			// frames of nearly the maximal size (the checksum range must not wrap)
 			frames = append(frames, plainOf(r, sizedMsgs(r, 65535, false), true), plainOf(r, sizedMsgs(r, 65520, false), true))
 			region := func(p []byte) (int, int) { // [lo, hi): timestamp .. end of CRC, excluding the length field handled below
@@ -881,7 +886,7 @@ func init() {
 					if big && bit%40009 != 3 && bit < 8*hi-64 {
 						continue
 					}
-					if tier != "thorough" && fi >= 8 && bit%5 != fi%5 {
+					if tier != "thorough" && fi >= 8 && bit%5 != fi%5 && bit < 8*hi-40 {
 						continue
 					}
 					m := make([]byte, len(p))
